@@ -156,8 +156,13 @@ static inline int sline_putchar(struct sline *sl, char c)
 
 static inline int sline_newdata(struct sline *sl, const char *data, int len)
 {
-    if (len > sline_avail(sl))
-        len = sline_avail(sl);
+    // keep one byte for the terminator sline_getline writes at buf[len],
+    // as sline_putchar does; nothing to insert for len <= 0
+    if (len > sline_avail(sl) - 1)
+        len = sline_avail(sl) - 1;
+
+    if (len <= 0)
+        return 0;
 
     if (sl->cursor != sl->len)
     {
